@@ -152,7 +152,7 @@ UNITS = [
       level='PB', bound='at most 100000 points per frame'),
     U('B_Parameter_write_char1d', RC, 'h_Parameter_write_char1d', ['Parameter__write/contract_Parameter__write'],
       ['C03', 'C04', 'C12', 'C13', 'C14', 'C17', 'C10'],
-      replace=['vf_stream_write/contract_vf_stream_write', 'ezc3d__toUpper/contract_ezc3d__toUpper'], unwind=6, timeout=2400,
+      replace=['vf_stream_write/contract_vf_stream_write', 'ezc3d__toUpper/contract_ezc3d__toUpper'], unwind=6, timeout=3600,
       tier='thorough', sat='kissat', level='B', object_bits=12,
       bound='one-dimensional character parameter of declared width 2..4 (padding loop unwound), name <= 127, description <= 255'),
     # (unit B_Parameters_read - the record walker of Parameters::Parameters(c3d&) - was removed: with loop contracts and
@@ -277,6 +277,12 @@ UNITS = [
       props={'memsafe': ['C13'], 'ub': ['C13']},
       assumes=['plain symbolic execution of the real Parameter::write / writeImbricatedParameter / toUpper over the stream model; values and '
                'shape are consistent (what Parameter::set guarantees: units Parameter_set_int, isDimensionConsistent)']),
+    U('B_Parameter_write_char1d_bmc', 'contracts/bounded_parameter_write.c', 'h_B_Parameter_write_char1d', [], ['C03', 'C04', 'C14', 'C13'], mode='bmc',
+      unwind=6, unwindset={'vf_stream_write.0': 6}, timeout=1200, level='B', object_bits=12,
+      bound='one-dimensional CHAR parameter of declared width 1..4, text no longer than the width, name 1..2 characters, description <= 2',
+      props={'memsafe': ['C13', 'C14'], 'ub': ['C13']},
+      assumes=['plain symbolic execution of the real Parameter::write over the stream model (quick-tier counterpart of the DFCC unit '
+               'B_Parameter_write_char1d)']),
     U('Parameters_write', WR, 'h_Parameters_write', ['Parameters__write/contract_Parameters__write'],
       ['C01', 'C03', 'C13', 'C14', 'C10'], replace=['Group__write/contract_abs_Group__write'], unwind=5, loops=True, timeout=900,
       pre_unwind={'vf_stream_write.0': 5, 'Parameters__write.0': 3},
